@@ -40,6 +40,16 @@ func main() {
 		seed, _ = strconv.Atoi(s)
 	}
 	start := time.Now()
+	// a check that does not come to a verdict is a failed check, not a hanging one
+	limit := 20 * time.Minute
+	if *tier == "thorough" {
+		limit = 90 * time.Minute
+	}
+	time.AfterFunc(limit, func() {
+		fmt.Printf("xpcheck: no verdict for %s within %s (the analysis did not terminate on this tree): undecided, which fails the check\n", *prop, limit)
+		fmt.Printf("VIOLATION property=%s replay=%s/evidence/%s.violations.json\n", *prop, *verif, *prop)
+		os.Exit(1)
+	})
 
 	code := run(*prop, *tier, *repo, *verif, *tags, seed, start)
 	os.Exit(code)
